@@ -15,8 +15,8 @@
     string constant read by C07's reader of that shell -- and nothing else but the fixed statements of
     the skeleton. *)
 From CG Require Import Base.Prelude Model.Ast Model.Dfa Model.Tpl Model.Quote Model.Tables Model.EmitBash Model.EmitData
-     Model.EmitZsh Spec.ShellDQ Spec.ScriptRead Proofs.BashCodec Proofs.BashScript Proofs.ScriptGen
-     Proofs.ZshCodec Proofs.ZshScript.
+     Model.EmitZsh Model.EmitPwsh Spec.ShellDQ Spec.ScriptRead Proofs.BashCodec Proofs.BashScript Proofs.ScriptGen
+     Proofs.ZshCodec Proofs.ZshScript Proofs.PwshCodec Proofs.PwshScript.
 Open Scope N_scope.
 Open Scope list_scope.
 
@@ -63,3 +63,42 @@ Example ex_C04_embed_zsh :
   end.
 Proof. vm_compute. repeat split. Qed.
 Print Assumptions ex_C04_embed_zsh.
+
+(** PowerShell.  Hypotheses: the command name is made of name characters and has no single quote (it is
+    written between single quotes in the registration line), the signature line has no newline, no
+    line of a command body is a lone closing brace, and -- the known finding of C07 for this shell -- no
+    literal text or description contains a smart double quote (U+201C/D/E), which pwsh.rs does not
+    escape ([alltables_smart_free]; C07_pwsh_exact, C07_refuted_pwsh_smart_quote). *)
+Theorem C04_embed_pwsh :
+  forall (command sig : string) (start : N) (nd : needs) (a : alltables) (groups : list (list N)) (s : string),
+    pname_ok command -> no_nl sig = true ->
+    Forall (fun c : string => body_okG Pwsh (P.cmd_body c)) (a_commands a) ->
+    alltables_smart_free a ->
+    EmitPwsh.script command sig start nd a groups = Ok s ->
+    exists sts : list stmt,
+      pscript_stmts command start nd a groups = Ok sts /\ read_stmts Pwsh command s = sts.
+Proof. exact pwsh_script_read. Qed.
+Check C04_embed_pwsh :
+  forall (command sig : string) (start : N) (nd : needs) (a : alltables) (groups : list (list N)) (s : string),
+    pname_ok command -> no_nl sig = true ->
+    Forall (fun c : string => body_okG Pwsh (P.cmd_body c)) (a_commands a) ->
+    alltables_smart_free a ->
+    EmitPwsh.script command sig start nd a groups = Ok s ->
+    exists sts : list stmt,
+      pscript_stmts command start nd a groups = Ok sts /\ read_stmts Pwsh command s = sts.
+Print Assumptions C04_embed_pwsh.
+
+Example ex_C04_embed_pwsh :
+  match EmitPwsh.script_of_dfa "cmd" "cmd completion script v0" exd_cdfa0 exd_om0 exd_os0 [[0]] with
+  | Ok (s, valid) =>
+      valid = true
+      /\ match all_tables Pwsh exd_cdfa0 exd_om0 exd_os0 with
+         | Ok (nd, a) => pscript_stmts "cmd" 0 nd a [[0]] = Ok (read_stmts Pwsh "cmd" s)
+                         /\ forallb (fun c => forallb (fun l => negb (String.eqb l "}")) (split_nl (P.cmd_body c))) (a_commands a) = true
+                         /\ forallb (fun l : N * string * string => smart_free (snd (fst l)) && smart_free (snd l)) (t_literals (a_main a)) = true
+         | _ => False
+         end
+  | _ => False
+  end.
+Proof. vm_compute. repeat split. Qed.
+Print Assumptions ex_C04_embed_pwsh.
